@@ -1,10 +1,13 @@
 /-
 Line protocol of the transformation matrix part of C17:
   tmatrix (bbx bby bw bh) (oxv oxpct oyv oypct) (fn …)   → `a b c d e f det`
+  gmatrix Kind (bbx bby bw bh) (oxv oxpct oyv oypct) (fn …)   → `none`, or `a b c d e f det`: the whole
+      transform part of `gather_anchors` on a box of that class (an empty list is `transform: none`)
   fn ::= (scale sx sy) | (translate xv xpct yv ypct) | (matrix a b c d e f)
 -/
 import WpModel.Model.Wire
 import WpModel.Model.Transform
+import WpModel.Model.LaidOut
 
 namespace Wp.Drive.Transform
 open Wp Wp.Transform Wp.Rounded
@@ -24,6 +27,15 @@ def handle (cmd : String) (args : List Sx) : Option String :=
     let m := transformationMatrix (← bbx.rat?) (← bby.rat?) (← bw.rat?) (← bh.rat?)
       { value := (← oxv.rat?), percent := (← oxp.bool?) } { value := (← oyv.rat?), percent := (← oyp.bool?) } fns
     pure (" ".intercalate ([m.a, m.b, m.c, m.d, m.e, m.f, m.det].map showRat))
+  | "gmatrix", [kind, .list [bbx, bby, bw, bh], .list [oxv, oxp, oyv, oyp], .list fns] => do
+    let k ← kind.atom?.bind Wp.Gen.Kind.ofName?
+    let fns ← allSome fn? fns
+    match Wp.Stacking.gatherMatrix k {
+        bbx := (← bbx.rat?), bby := (← bby.rat?), bw := (← bw.rat?), bh := (← bh.rat?),
+        ox := { value := (← oxv.rat?), percent := (← oxp.bool?) },
+        oy := { value := (← oyv.rat?), percent := (← oyp.bool?) }, fns := fns } with
+    | none => pure "none"
+    | some m => pure (" ".intercalate ([m.a, m.b, m.c, m.d, m.e, m.f, m.det].map showRat))
   | _, _ => none
 
 end Wp.Drive.Transform
